@@ -310,32 +310,39 @@ def timerReset (r : Rec) (now : Int) : Rec :=
     until `idleUntil = idle_reset_time + idle` (no `idle=`: `idleUntil ≤` the spawn time). -/
 def timerAt (now idleUntil : Int) : Int := if idleUntil > now then idleUntil else now
 
+/-- The record an iteration of `_timer` that starts at `now` executes at `t` (after the idle wait):
+    `if state.done and not state.counts.failure: state = from_scratch()` at the top of the loop, and
+    after the idle wait `if not state[handler.id].retries: state = from_scratch()` — a series that
+    has not made an attempt yet starts its clock (`started`) with its first attempt (9118944). -/
+def timerState (r : Rec) (now t : Int) : Rec :=
+  if (timerReset r now).retries = 0 then fromScratch t else timerReset r now
+
 /-- The whole life of ONE `_timer` task, one script element per iteration of its loop (the element is
     not used when nothing is awakened). A new retry series starts after a SUCCEEDED one only; a series
     that has failed for good is kept, the gate of `execute_handlers_once` finds nothing awakened in
-    it, and the loop only keeps sleeping its interval. NB the order in the code: the series' record
-    is created (`started := now`) BEFORE the idle wait, the execution comes after it. -/
+    it, and the loop only keeps sleeping its interval. -/
 def timerRun (env : Env) (l : Limits) (interval : Nat) (sharp : Bool) (idleUntil : Int) :
     Int → Rec → List (Raised × Nat) → List Ev
   | _, _, [] => []
   | now, r, (x, dur) :: rest =>
-      let r0 := timerReset r now
       let t := timerAt now idleUntil
-      if r0.awakened t then
-        let a := attemptAt env l t r0 x dur 0
+      let r1 := timerState r now t
+      if r1.awakened t then
+        let a := attemptAt env l t r1 x dur 0
         .att a :: timerRun env l interval sharp idleUntil (timerNext interval sharp a) a.recAfter rest
       else
-        .idle t r0.finished :: timerRun env l interval sharp idleUntil (timerIdleNext interval sharp r0 t) r0 rest
+        .idle t r1.finished :: timerRun env l interval sharp idleUntil (timerIdleNext interval sharp r1 t) r1 rest
 
 /-- A timer across re-spawns (`match_daemons` / `pause_daemons` stop the task with a reason, a later
-    `spawn_daemons` starts a new one): every task starts `State.from_scratch()` — counts, `started`,
-    `delayed` and a final failure of the previous task are forgotten (a failed DAEMON is remembered in
-    `memory.forever_stopped`; a failed timer never leaves its loop, so it is not). -/
+    `spawn_daemons` starts a new one from `State.from_scratch()`). A task whose series failed for
+    good puts the handler into `memory.forever_stopped` (a6c10de), and `process_spawning_cause` never
+    spawns it again: the later tasks do not happen. -/
 def respawnRun (env : Env) (l : Limits) (interval : Nat) (sharp : Bool) :
     List (Int × List (Raised × Nat)) → List Ev
   | [] => []
   | (t0, script) :: rest =>
-      timerRun env l interval sharp t0 t0 (fromScratch t0) script ++ respawnRun env l interval sharp rest
+      let evs := timerRun env l interval sharp t0 t0 (fromScratch t0) script
+      evs ++ (if (attempts evs).any (fun a => a.recAfter.failure) then [] else respawnRun env l interval sharp rest)
 
 /-- The attempts of a list up to and including the first one that finished the record: one series. -/
 def takeSeries : List Attempt → List Attempt
